@@ -23,12 +23,15 @@ CLAIMED = {
         "the id seen in the handshake / CONNECTION_ID() / KILL is checked at the wire level by the harness (test, not theorem).",
    technique="Coq proof (invariant by induction over add/remove histories, pigeonhole for termination) + translator facts + vm_compute correspondence"),
  "C06": dict(
-   text="Coq theorems over code points: the one-pass placeholder scanner equals the regex's look-ahead specification for every text; "
-        "a literal built from ANY character sequence lexes (MySQL string-literal lexer as specification) to exactly that sequence and "
-        "ends where the builder ended it; on the template grammar the recognised placeholders are exactly the holes and interpolation "
-        "equals filling the holes in order with everything else byte-identical; binary parameter decoding is the inverse of the "
-        "client-side encoding for every well-formed parameter list. Function shapes regenerated from prepared.py/packets.py; "
-        "byte-exact correspondence with parse_com_stmt_execute and the wire (long data, repeated executions).",
+   text="Coq theorems over code points: on ANY text the left-to-right placeholder scanner flags one position per character and only "
+        "question marks; a literal built from ANY character sequence lexes (MySQL string-literal lexer as specification) to exactly that "
+        "sequence and ends where the builder ended it; on the template grammar - quoted segments holding any characters but their own "
+        "quote character, the other quote characters and backslash escapes included - the recognised placeholders are exactly the holes "
+        "and interpolation equals filling the holes in order with everything else byte-identical; binary parameter decoding is the "
+        "inverse of the client-side encoding for every well-formed parameter list; over whole histories of one connection the long data "
+        "bound by an execution is exactly what was sent for that statement since its last use. Function shapes regenerated from "
+        "prepared.py/packets.py/connection.py; byte-exact correspondence with parse_com_stmt_execute, the wire and histories of "
+        "statement commands on one real connection.",
    design="6/C06",
    note="Trusted: Coq kernel, translator, harness; text decoding (latin1 in the byte-exact runs) and repr(float) are outside the model; "
         "lex_literal is my reading of MySQL's lexer, cross-checked against sqlglot's tokenizer on every generated literal.",
@@ -52,7 +55,8 @@ CLAIMED = {
         "statement grammar through the real connection (COM_QUERY and prepare/execute, query attributes), application-call log and "
         "results against labels and model.",
    design="6/C13",
-   note="Trusted: Coq kernel, translator, harness; SQL text -> (kind, tables) is sqlglot's parser + utils.find_tables (exercised on "
+   note="Open finding show-set-command-fallback-reaches-application (SHOW / SET spellings sqlglot parses as a generic Command). "
+        "Trusted: Coq kernel, translator, harness; SQL text -> (kind, tables) is sqlglot's parser + utils.find_tables (exercised on "
         "every generated statement, not modelled). DATABASE()/VERSION() are not generated: sqlglot 30 parses them into nodes the "
         "library's function table does not know (pre-existing failures of the pinned suite).",
    technique="Coq proof (case analysis over the chain, induction over statement lists and connection histories) + translator facts + vm_compute correspondence"),
@@ -96,7 +100,9 @@ CLAIMED = {
         "depth-2/3/4 mappings against the model, INFORMATION_SCHEMA.COLUMNS exactly-once, COM_FIELD_LIST at the wire.",
    design="6/C16",
    note="Trusted: Coq kernel, translator, harness; Python re as the regex engine (modelled by the denotational match relation), "
-        "sqlglot's executor evaluating the info-schema queries (exercised by the correspondence, not modelled).",
+        "sqlglot's executor evaluating the info-schema queries (exercised by the correspondence, not modelled). Open finding "
+        "declared-empty-entry-not-listed: a database declared without tables / a table declared without columns is listed nowhere "
+        "(the model, built from the declared columns like the code, says the same: the oracle is the declaration itself).",
    technique="Coq proof (induction over patterns / nested mappings) + translator facts + vm_compute correspondence"),
  "C07": dict(
    text="Coq theorems: every packet parser of the model (COM_QUERY with attributes, COM_STMT_EXECUTE, handshake response, "
@@ -189,8 +195,8 @@ CLAIMED = {
    technique="Coq proof (per-operation invariants, induction over the source's item list, modular arithmetic for the yield bound) + lock-step correspondence"),
  "C02": dict(
    text="Proved for EVERY function H with 20-byte output (nothing about SHA-1 is assumed): the scramble of the account's password under "
-        "the issued nonce is accepted for every password and nonce; acceptance <=> the first 20 bytes XOR H(nonce ++ stored) is a "
-        "pre-image of the stored secret (bytes beyond 20 ignored); a malformed stored hash never accepts; a response accepted under "
+        "the issued nonce is accepted for every password and nonce; acceptance <=> the response has at least 20 bytes and its first 20 XOR H(nonce ++ stored) are a "
+        "pre-image of the stored secret (bytes beyond 20 ignored); a response shorter than 20 bytes never accepts; a malformed stored hash never accepts; a response accepted under "
         "two different nonces exhibits a collision of H; every acceptance goes through the quick path, the current or the secondary "
         "password; XOR involution; every nonce character is NUL-free; the handshake's 8+13 split is lossless. Tie: function shapes "
         "and the nonce alphabet regenerated from auth.py/utils.py; password_matches run with a Gallina SHA-1 (checked against "
